@@ -2,11 +2,14 @@
 (* all histories up to MaxLen over the call alphabet: repetitions, interleavings *)
 (* with another map, two gradual handles over the same map and settings.         *)
 EXTENDS Session, Json
-CONSTANT MaxLen, Wide, Lockstep     \* Lockstep: "" or a map name: only two calculators with different settings over that map, long histories
+CONSTANT MaxLen, Wide, Lockstep     \* Lockstep: "" | a map name: only two calculators with different settings over that map, long histories | "slot"
 VARIABLES hist, pos
 vars == <<hist, pos>>
 C(op, m, cfg, h) == [op |-> op, m |-> m, cfg |-> cfg, h |-> h]
 Alphabet ==
+  \* "slot": ONE map value that is overwritten in place by maps of the same size (m5, its time-halved twin m7, m6 = m5 under other
+  \* HP / AR) and used for a calculation in a target mode each time - same address, same object count, different content
+  IF Lockstep = "slot" THEN {C("slot", m, mode, "-") : m \in {"m5", "m6", "m7"}, mode \in {"taiko", "mania", "catch", "osu"}} ELSE
   IF Lockstep # "" THEN {C("gnext", Lockstep, "C", "h3"), C("gnext", Lockstep, "D", "h4")} ELSE
   {C("decode", "m1", "-", "-"), C("bpm", "m1", "-", "-"), C("convert", "m1", "taiko", "-"),
    C("calc", "m1", "A", "-"), C("calc", "m2", "A", "-"), C("perf", "m1", "A", "-"),
